@@ -229,6 +229,21 @@ func (fc *FnCtx) loopHeader(h *ssa.BasicBlock, phiEntry map[*ssa.Phi]string) {
 		if phi.Comment == "rangeindex" {
 			// compiler-generated index of a range loop: starts at -1 and only increments
 			fc.assume(fmt.Sprintf("(and (>= %s (- 1)) (< %s 9223372036854775807))", t, t), "rangeindex in [-1, len)")
+			// the index only advances while index+1 < len (len evaluated once before the loop)
+			for _, ins2 := range h.Instrs {
+				add, ok := ins2.(*ssa.BinOp)
+				if !ok || add.Op != token.ADD || add.X != ssa.Value(phi) {
+					continue
+				}
+				for _, ins3 := range h.Instrs {
+					lt, ok := ins3.(*ssa.BinOp)
+					if ok && lt.Op == token.LSS && lt.X == ssa.Value(add) {
+						if lv, ok := fc.vals[lt.Y]; ok {
+							fc.assume(fmt.Sprintf("(< %s %s)", t, lv.t), "rangeindex < len")
+						}
+					}
+				}
+			}
 		}
 	}
 	hv := fc.headerVars(h, phiNew)
